@@ -359,7 +359,21 @@ fn raw_cases() -> Vec<(String, refsh::Outcome)> {
             m(&[&format!("w:{n}"), "e:393"], 0),
         ));
     }
+    // two shell processes write to one pipe at the same time, each more than the pipe holds (and,
+    // as a control, less): whatever the order of the data, nobody may be left waiting for ever
+    for n in [100, 1100, 3000] {
+        v.push((format!("{{ gen {n} 0 0 & gen {n} 0 0; wait; }} | cat >/dev/null\np done\ns 0\n{TWO_WRITERS}"), m(&["done:0"], 0)));
+        v.push((format!("x=$(gen {n} 0 0 & gen {n} 0 0; wait)\np done\ns 0\n{TWO_WRITERS}"), m(&["done:0"], 0)));
+        v.push((format!("{{ gen {n} 0 0 | cat & gen {n} 0 0 | cat; wait; }} | cat >/dev/null\np done\ns 0\n{TWO_WRITERS}"), m(&["done:0"], 0)));
+    }
     v
+}
+
+const TWO_WRITERS: &str = "# two shell processes write to one pipe";
+
+/// Key of a violation: deadlocks of the two-writer scripts have a key of their own.
+fn key_for(script: &str, key: &str) -> String {
+    if key == "deadlock" && script.contains(TWO_WRITERS) { format!("c13:{key}:two-shell-writers-on-one-pipe") } else { format!("c13:{key}") }
 }
 
 pub fn replay(case: &serde_json::Value) -> i32 {
@@ -455,7 +469,7 @@ pub fn run(tier: Tier) -> i32 {
                         return false;
                     }
                     ctx.violation(
-                        &format!("c13:{key}"),
+                        &key_for(&script, &key),
                         &what,
                         json!({"script": script, "prefix": prefix, "taps": ph.taps,
                                "expected": format!("{exp:?}"), "observed": outcome_string(r)}),
@@ -475,7 +489,7 @@ pub fn run(tier: Tier) -> i32 {
                     outcomes.insert(outcome_string(r));
                     if let Some((key, what)) = judge(r, &exp) {
                         ctx.violation(
-                            &format!("c13:{key}"),
+                            &key_for(&script, &key),
                             &what,
                             json!({"script": script, "prefix": prefix, "taps": false,
                                    "expected": format!("{exp:?}"), "observed": outcome_string(r)}),
